@@ -25,6 +25,8 @@ import (
 
 func batches(tier string) int { return 16 }
 
+var rewardAddr = common.BytesToAddress([]byte{9}).Hex()
+
 // emit reports the first violation of every class in this batch (the driver keeps one
 // witness per class; the per-batch cap of the protocol must not hide later, different classes).
 var emitted = map[string]bool{}
@@ -209,18 +211,28 @@ func check(c *run.Ctx, b *evmmon.Base, cs *evmmon.Case) {
 		}
 	}
 	// (5) static call => nothing changes
+	staticClass := func(d string) string {
+		f := evmmon.DiffField(d)
+		k := evmmon.FieldKind(f)
+		// second predicate for the reward-setter mechanism: the changed slot is the reward table of 0x09
+		if k == "storage" && strings.EqualFold(evmmon.FieldAddr(f), rewardAddr) {
+			return "storage:reward-precompile"
+		}
+		return k
+	}
 	if cs.Entry == "static" {
 		c.Stat("static_calls_checked", 1)
 		seen := map[string]bool{}
-		for _, d := range fx.Diff(r1.Before, r1.After, 12) {
-			k := evmmon.FieldKind(evmmon.DiffField(d))
+		diffs := fx.Diff(r1.Before, r1.After, 12)
+		for _, d := range diffs {
+			k := staticClass(d)
 			if !seen[k] {
 				seen[k] = true
 				viol("static-call-changed-state:"+k, "read-only call changed "+d)
 			}
 		}
 		logs := r1.AM.GetChangeLogs()
-		if r1.JBefore <= len(logs) {
+		if r1.JBefore <= len(logs) && len(diffs) == 0 {
 			if bad := evmmon.OnlyFailureEvents(logs[r1.JBefore:]); bad != "" {
 				viol("static-call-changed-state:journal:"+bad, "read-only call left a change log: "+bad)
 			}
@@ -242,13 +254,21 @@ func check(c *run.Ctx, b *evmmon.Base, cs *evmmon.Case) {
 			viol("failed-call-changed-state:journal-length", fmt.Sprintf("journal length %d after a rollback, %d when the frame started", rep.JLenGot, rep.JLenWant))
 		}
 	}
+	c.Stat("nested_frames_judged", r1.FramesJudged)
 	for _, s := range statics {
-		c.Stat("nested_static_findings", 1)
 		k := "journal"
 		if len(s.Diff) > 0 && !strings.HasPrefix(s.Diff[0], "journal: ") {
-			k = evmmon.FieldKind(evmmon.DiffField(s.Diff[0]))
+			k = staticClass(s.Diff[0])
+		} else if len(s.Diff) > 0 {
+			k = "journal:" + strings.TrimPrefix(s.Diff[0], "journal: ")
 		}
-		viol("static-call-changed-state:"+k+":nested", fmt.Sprintf("STATICCALL frame at depth %d changed state: %v", s.Depth, s.Diff))
+		if s.Static {
+			viol("static-call-changed-state:"+k, fmt.Sprintf("STATICCALL frame at depth %d changed state: %v", s.Depth, s.Diff))
+		} else if len(r1.Px.Reports) == 0 {
+			// a nested call / create reported failure, no rollback of this execution was unfaithful, yet the state differs
+			// from the state at the instruction: the failed frame was not rolled back (completely)
+			viol("failed-call-changed-state:"+k+":frame-not-rolled-back", fmt.Sprintf("%s at depth %d returned 0 but state differs from the state at the instruction: %v", s.Op, s.Depth, s.Diff))
+		}
 	}
 	kindFp := cs.Kind
 	if i := strings.Index(kindFp, ":"); i >= 0 && !strings.HasPrefix(kindFp, "template") {
@@ -320,6 +340,11 @@ func endToEnd(c *run.Ctx, b *evmmon.Base, nBlocks int) {
 				kind = "e2e-create-random"
 			default:
 				k := b.ZooList[r.Intn(len(b.ZooList))]
+				if k == "double-create-revert" {
+					// known finding C07/revert-differs:code:after-code: a block with this call cannot be saved by any
+					// node ("save account error"), which would end the end-to-end slice of this batch
+					k = "double-create"
+				}
 				tx = cl.G.B.Call(u, b.Zoo[k], amount, gas, g.R.Bytes(r.Intn(3)*32), exp+uint64(ui))
 				kind = "e2e-call-" + k
 			}
